@@ -66,7 +66,7 @@ fn fam_fifo(ch: Chooser, ctx: &RunCtx) -> RunOut {
 
 /// everything at once: loss, duplication, reordering, stream traffic, window ops
 fn fam_mixed(ch: Chooser, ctx: &RunCtx) -> RunOut {
-    run(ch, ctx, BasicOpts { op_kinds: vec![0, 1, 2, 3, 4], ops_max: 3, streams_max: 4, size_max: 60_000, ..Default::default() }, DgCfg::default(), true)
+    run(ch, ctx, BasicOpts { op_kinds: vec![0, 1, 2, 3, 4, 9], ops_max: 3, streams_max: 4, size_max: 60_000, ..Default::default() }, DgCfg::default(), true)
 }
 
 /// MTU increases and black-hole fallback while datagrams are queued
